@@ -482,7 +482,9 @@ func (f *DefaultFanController) calculateTargetPwm() (int, error) {
 		lastSetTargetEqualsNewTarget := f.lastSetPwm != nil && *f.lastSetPwm == target
 		if shouldNeverStop && lastSetTargetEqualsNewTarget {
 			avgRpm := fan.GetRpmAvg()
-			if avgRpm <= 0 {
+			// the moving average decays exponentially and never reaches exactly 0,
+			// so a fan is considered stalled if less than one full RPM remains
+			if avgRpm < 1 {
 				if target >= maxPwm {
 					ui.Error("CRITICAL: Fan %s avg. RPM is %d, even at PWM value %d", fan.GetId(), int(avgRpm), target)
 					return -1, ErrFanStalledAtMaxPwm
